@@ -21,6 +21,7 @@ local macro "bump_down_setup" : tactic => `(tactic| (
   simp only at hf ⊢
   clear hdav h
   obtain ⟨hm, hm16, hm16d, ha, ha64, hap, hmp, hs0, he0, hs64, he64, hsz, htr, h16, hr⟩ := hf
+  have hszI : as_isize sz = (sz : Int) := as_isize_small' (by omega)
   simp only [Bool.false_eq_true, ↓reduceIte] at hr
   unfold Spec.bumpDown
   simp only [rs_max_eq, saturating_sub]
@@ -93,19 +94,19 @@ theorem bump_down_ok_false (p : BumpProps) (h : Valid false p) (hsic : p.size_is
       rcases hr with ⟨h1, h2, h3, h4⟩ | ⟨h1, h2, h3⟩
       · by_cases hcmp : (sz : Int) > ((e - s : Nat) : Int)
         · have : ¬ s ≤ D := by omega
-          rs_simp [hda, hDdef, hcmp, this]
+          rs_simp [hszI, hda, hDdef, hcmp, this]
         · have : s ≤ D := hD4 s (Nat.dvd_trans (hM16 b2.2) h3) (by omega)
-          rs_simp [hda, hDdef, hcmp, this]
+          rs_simp [hszI, hda, hDdef, hcmp, this]
       · subst h1
         have : ¬ (e + 16 ≤ D) := by omega
         have h5 : (sz : Int) > -16 := by omega
-        rs_simp [hda, hDdef, this, h5]
+        rs_simp [hszI, hda, hDdef, this, h5]
     · simp only [b2, ↓reduceIte, Bool.false_eq_true]
       by_cases hlt : D < s
       · have : ¬ s ≤ D := by omega
-        rs_simp [hda, hDdef, hlt, this]
+        rs_simp [hszI, hda, hDdef, hlt, this]
       · have : s ≤ D := by omega
-        rs_simp [hda, hDdef, hlt, this]
+        rs_simp [hszI, hda, hDdef, hlt, this]
   · simp only [hN, Bool.false_eq_true, ↓reduceIte]
     simp only [Bool.not_eq_true', Bool.not_eq_false, Bool.and_eq_true, Bool.or_eq_true, decide_eq_true_eq, Bool.or_false] at hN
     have hDeq : D = e - sz := hNf hN.1.1.1 hN.1.2 (by omega)
@@ -117,19 +118,19 @@ theorem bump_down_ok_false (p : BumpProps) (h : Valid false p) (hsic : p.size_is
       rcases hr with ⟨h1, h2, h3, h4⟩ | ⟨h1, h2, h3⟩
       · by_cases hcmp : (sz : Int) > ((e - s : Nat) : Int)
         · have : ¬ s ≤ (e - sz) := by omega
-          rs_simp [hda, hDdef, hcmp, this]
+          rs_simp [hszI, hda, hDdef, hcmp, this]
         · have : s ≤ (e - sz) := by omega
-          rs_simp [hda, hDdef, hcmp, this]
+          rs_simp [hszI, hda, hDdef, hcmp, this]
       · subst h1
         have : ¬ (e + 16 ≤ (e - sz)) := by omega
         have h5 : (sz : Int) > -16 := by omega
-        rs_simp [hda, hDdef, this, h5]
+        rs_simp [hszI, hda, hDdef, this, h5]
     · simp only [b2, ↓reduceIte, Bool.false_eq_true]
       by_cases hlt : (e - sz) < s
       · have : ¬ s ≤ (e - sz) := by omega
-        rs_simp [hda, hDdef, hlt, this]
+        rs_simp [hszI, hda, hDdef, hlt, this]
       · have : s ≤ (e - sz) := by omega
-        rs_simp [hda, hDdef, hlt, this]
+        rs_simp [hszI, hda, hDdef, hlt, this]
 
 theorem bump_down_ok_true (p : BumpProps) (h : Valid false p) (hsic : p.size_is_const = true) :
     bump_down p = .ok (Spec.bumpDown p.start p.«end» p.layout.size p.layout.align p.min_align) := by
@@ -144,9 +145,9 @@ theorem bump_down_ok_true (p : BumpProps) (h : Valid false p) (hsic : p.size_is_
     by_cases b1 : sz ≤ 16
     · by_cases hlt : D < s
       · have : ¬ s ≤ D := by omega
-        rs_simp [hda, hDdef, b1, hlt, this]
+        rs_simp [hszI, hda, hDdef, b1, hlt, this]
       · have : s ≤ D := by omega
-        rs_simp [hda, hDdef, b1, hlt, this]
+        rs_simp [hszI, hda, hDdef, b1, hlt, this]
     · simp only [b1, decide_false, ↓reduceIte, Bool.false_eq_true]
       by_cases b2 : (aic && decide (a ≤ 16)) = true
       · simp only [b2, ↓reduceIte]
@@ -154,19 +155,19 @@ theorem bump_down_ok_true (p : BumpProps) (h : Valid false p) (hsic : p.size_is_
         rcases hr with ⟨h1, h2, h3, h4⟩ | ⟨h1, h2, h3⟩
         · by_cases hcmp : (sz : Int) > ((e - s : Nat) : Int)
           · have : ¬ s ≤ D := by omega
-            rs_simp [hda, hDdef, hcmp, this]
+            rs_simp [hszI, hda, hDdef, hcmp, this]
           · have : s ≤ D := hD4 s (Nat.dvd_trans (hM16 b2.2) h3) (by omega)
-            rs_simp [hda, hDdef, hcmp, this]
+            rs_simp [hszI, hda, hDdef, hcmp, this]
         · subst h1
           have : ¬ (e + 16 ≤ D) := by omega
           have h5 : (sz : Int) > -16 := by omega
-          rs_simp [hda, hDdef, this, h5]
+          rs_simp [hszI, hda, hDdef, this, h5]
       · simp only [b2, ↓reduceIte, Bool.false_eq_true]
         by_cases hlt : D < s
         · have : ¬ s ≤ D := by omega
-          rs_simp [hda, hDdef, hlt, this]
+          rs_simp [hszI, hda, hDdef, hlt, this]
         · have : s ≤ D := by omega
-          rs_simp [hda, hDdef, hlt, this]
+          rs_simp [hszI, hda, hDdef, hlt, this]
   · simp only [hN, Bool.false_eq_true, ↓reduceIte]
     simp only [Bool.not_eq_true', Bool.not_eq_false, Bool.and_eq_true, Bool.or_eq_true, decide_eq_true_eq, Bool.or_false] at hN
     have hDeq : D = e - sz := hNf hN.1.1.1 hN.1.2 (by omega)
@@ -175,9 +176,9 @@ theorem bump_down_ok_true (p : BumpProps) (h : Valid false p) (hsic : p.size_is_
     by_cases b1 : sz ≤ 16
     · by_cases hlt : (e - sz) < s
       · have : ¬ s ≤ (e - sz) := by omega
-        rs_simp [hda, hDdef, b1, hlt, this]
+        rs_simp [hszI, hda, hDdef, b1, hlt, this]
       · have : s ≤ (e - sz) := by omega
-        rs_simp [hda, hDdef, b1, hlt, this]
+        rs_simp [hszI, hda, hDdef, b1, hlt, this]
     · simp only [b1, decide_false, ↓reduceIte, Bool.false_eq_true]
       by_cases b2 : (aic && decide (a ≤ 16)) = true
       · simp only [b2, ↓reduceIte]
@@ -185,19 +186,19 @@ theorem bump_down_ok_true (p : BumpProps) (h : Valid false p) (hsic : p.size_is_
         rcases hr with ⟨h1, h2, h3, h4⟩ | ⟨h1, h2, h3⟩
         · by_cases hcmp : (sz : Int) > ((e - s : Nat) : Int)
           · have : ¬ s ≤ (e - sz) := by omega
-            rs_simp [hda, hDdef, hcmp, this]
+            rs_simp [hszI, hda, hDdef, hcmp, this]
           · have : s ≤ (e - sz) := by omega
-            rs_simp [hda, hDdef, hcmp, this]
+            rs_simp [hszI, hda, hDdef, hcmp, this]
         · subst h1
           have : ¬ (e + 16 ≤ (e - sz)) := by omega
           have h5 : (sz : Int) > -16 := by omega
-          rs_simp [hda, hDdef, this, h5]
+          rs_simp [hszI, hda, hDdef, this, h5]
       · simp only [b2, ↓reduceIte, Bool.false_eq_true]
         by_cases hlt : (e - sz) < s
         · have : ¬ s ≤ (e - sz) := by omega
-          rs_simp [hda, hDdef, hlt, this]
+          rs_simp [hszI, hda, hDdef, hlt, this]
         · have : s ≤ (e - sz) := by omega
-          rs_simp [hda, hDdef, hlt, this]
+          rs_simp [hszI, hda, hDdef, hlt, this]
 
 theorem bump_down_ok (p : BumpProps) (h : Valid false p) :
     bump_down p = .ok (Spec.bumpDown p.start p.«end» p.layout.size p.layout.align p.min_align) := by
